@@ -7,6 +7,9 @@ Driver for the `fleet` correspondence family (C19).
 ```
 case <idx> <b|a> <json|jsonnp|msg> <max> <behaviour,behaviour,…|-> [dead=<Kind,Kind,…|->]
    -> <idx> s <contacts>:<result>:<connected> … | h <contacts>:<result>:<connected> … | rec <n|never>
+life <idx> <b|a> <max> <behaviour,…|-> <conn|disc|reconn|health|call,…> [dead=…]
+   -> <idx> o <op observation>:<connected> … | h … | rec <n|never>
+mr  … same as bc, through `map_reduce_json`
 bc <idx> <b|a> <max> <name=tag+tag=behaviour,…;…> <tag,tag|->
    -> <idx> addressed <name,…|-> results <name=result,…|->
 ```
@@ -95,6 +98,27 @@ def nodeOf (s : String) : Option Node :=
     pure ⟨name, splitList tags "+", bs⟩
   | _ => none
 
+def lifeOpOf : String → Option LifeOp
+  | "conn" => some .connectAll
+  | "disc" => some .disconnectAll
+  | "reconn" => some .reconnect
+  | "health" => some .health
+  | "call" => some .call
+  | _ => none
+
+def healthFormOf (fleet : String) : HealthForm :=
+  if fleet = "a" then Gen.Fleet.asyncHealthForm else Gen.Fleet.healthForm
+
+def showLife (x : LifeObs × Bool) : String :=
+  let c := if x.2 then "1" else "0"
+  match x.1 with
+  | .connected b => "conn:" ++ (if b then "ok" else "failed") ++ ":" ++ c
+  | .disconnected => "disc:" ++ c
+  | .reconnect none => "reconn:-:" ++ c
+  | .reconnect (some b) => "reconn:" ++ (if b then "ok" else "failed") ++ ":" ++ c
+  | .health n r => "health:" ++ toString n ++ ":" ++ showReply (some r) ++ ":" ++ c
+  | .call o => "call:" ++ showObs o
+
 def orDash (xs : List String) : String := if xs.isEmpty then "-" else ",".intercalate xs
 
 def step (st : Unit) (ws : List String) : Unit × String :=
@@ -114,7 +138,22 @@ def step (st : Unit) (ws : List String) : Unit × String :=
       let rec' := match n with | some k => toString k | none => "never"
       (st, joinSp ([idx, "s"] ++ os.map showObs ++ ["|", "h"] ++ hs.map showObs ++ ["|", "rec", rec']))
     | _, _, _, _ => (st, idx ++ " bad-op")
-  | ["bc", idx, fleet, max, nodes, req] =>
+  | "life" :: idx :: fleet :: max :: seq :: ops :: rest =>
+    let observed : Option (List IoKind) := match rest with
+      | [] => some []
+      | [w] => if w.startsWith "dead=" then (splitList (w.drop 5).toString ",").mapM kindOf else none
+      | _ => none
+    match policyOf fleet, loopOf fleet "json", behavioursOf seq, (splitList ops ",").mapM lifeOpOf, observed with
+    | some P, some lf, some bs, some os, some ks =>
+      if ks.any (fun k => !(deadKindsOf fleet).contains k) then
+        (st, idx ++ " inadmissible-dead-client-kind")
+      else
+      let (obs, hs, n) := runLife P lf (healthFormOf fleet) (natOf max) ks bs os
+      let rec' := match n with | some k => toString k | none => "never"
+      (st, joinSp ([idx, "o"] ++ obs.map showLife ++ ["|", "h"] ++ hs.map showObs ++ ["|", "rec", rec']))
+    | _, _, _, _, _ => (st, idx ++ " bad-op")
+  | [op, idx, fleet, max, nodes, req] =>
+    if op ≠ "bc" ∧ op ≠ "mr" then (st, idx ++ " bad-op") else
     match policyOf fleet, loopOf fleet "json", (splitList nodes ";").mapM nodeOf with
     | some P, some lf, some ns =>
       let rs := broadcast P lf (filterOf fleet) (natOf max) (splitList req ",") ns
